@@ -4,6 +4,7 @@ import PolyVerif.Model.GltfDedup
 import PolyVerif.Model.GltfTopo
 import PolyVerif.Model.GltfGlb
 import PolyVerif.Model.GltfShape
+import PolyVerif.Model.Base64
 
 /-
   C06 driver: parses scene descriptions / parsed-document summaries from the harness, answers with the model's
@@ -482,6 +483,21 @@ def handle (op : String) (args : List String) : Option String :=
         pure (d, ({ b64ok := ok == "true", declared := declared, textLen := tl, textHash := th, glbLen := gl, glbHash := gh,
                     expLen := el, expHash := eh, boundsOK := mm == "true", sameDoc := sd == "true" } : PayloadSummary))) args
       pure (boolStr (bigTextOK d p))
+  | "c06.uri" => do
+      -- the buffer URI of the text container: Base64.dataURI of the model's buffer (compared exactly with WriteText's)
+      let (s, _) ← run pScene args
+      match writeSceneT s with
+      | .ok w => pure (if w.bytesWritten > 0 then "u" ++ String.ofList (Base64.dataURI w.buf) else "none")
+      | .err _ => pure "err"
+      | .panic => pure "panic"
+  | "c06.holds.uridecode" => do
+      -- the strict reader of gltf_text_carries_buffer on the IMPLEMENTATION's URI: decodes to the payload the Go reader got
+      let ((u, b), _) ← run (do
+        let u ← tok
+        let b ← pBytes
+        pure (u, b)) args
+      if !u.startsWith "u" then none else
+      pure (boolStr (Base64.parseDataURI (u.drop 1).toString.toList == some b))
   | "c06.holds.glbparse" => do
       -- the statement of glb_parse_write, checked on the IMPLEMENTATION's file with the Lean reader
       let ((f, j, b), _) ← run (do
